@@ -282,6 +282,24 @@ Print Assumptions checked_dump_force_clauses.
 Example checked_dump_nonvacuous : exists t, struct_okb ex_data2 ex_order2 t = true /\ NoCo ex_data2 ex_order2.
 Proof. exact ex_dump. Qed.
 
+(* 8b. end to end for the constructor tsne.hpp uses, `new QuadTree(Y, N)` = root box from the data + fill(N)
+       (tsne_tree; slack is the 1e-5 of the code, any slack >= 0 will do): every clause of the property *)
+Theorem tsne_tree_satisfies_property : forall slack fuel data N ok t,
+  0 <= slack -> (N <= length data)%nat ->
+  tsne_tree slack fuel data N = Some (Done ok t) ->
+  ok = true /\ spec data (seq 0 N) t /\ geom_ok t /\ count_ok t /\ is_correct data t = true /\
+  NoDup (all_indices t) /\
+  (NoCo data (seq 0 N) ->
+     forall i p, nth_error data i = Some p ->
+       (forall a, feq (forces_at p i 0 t a) (fadd a (exact_sums data p i (seq 0 N)))) /\
+       (forall theta, 0 <= theta -> 8 * (theta * theta) <= 1 ->
+          bound theta (forces_at p i theta t (0, 0, 0)) (exact_sums data p i (seq 0 N)))).
+Proof. exact tsne_tree_final. Qed.
+Print Assumptions tsne_tree_satisfies_property.
+Example tsne_tree_nonvacuous :
+  exists ok t, tsne_tree (1 # 100000) 12 ex_data 5 = Some (Done ok t) /\ (5 <= length ex_data)%nat.
+Proof. exact ex_tsne_tree. Qed.
+
 (* 9. the list of summarised cells the model driver prints is what forces_at folds over *)
 Theorem forces_fold_cells : forall p i theta t n a,
   forces_at p i theta t a = fold_left (add_cell p) (forces_cells p i theta n t) a.
